@@ -98,7 +98,9 @@ class World:
 def build_worlds():
     import pycdlib
     worlds = []
-    for kind in ('iso', 'udf'):
+    for kind in ('iso', 'udf', 'iso-modified', 'udf-modified'):
+        modified = kind.endswith('-modified')
+        kind = kind.split('-')[0]
         iso = pycdlib.PyCdlib()
         if kind == 'iso':
             iso.new(interchange_level=3, joliet=3, rock_ridge='1.09')
@@ -131,6 +133,16 @@ def build_worlds():
                 starts[j] = base
         total = max(starts[j] + len(CONTENT[j]) for j in starts)
         which = kind
+        if modified:
+            # edit the opened image (not written yet) so that metadata recomputation moves every
+            # original file to a new extent, then make a query that triggers the recomputation
+            iso2.add_fp(io.BytesIO(b'A' * 5000), 5000, **({'iso_path': '/AAA.;1', 'rr_name': 'aaa', 'joliet_path': '/aaa'}
+                                                         if kind == 'iso' else {'iso_path': '/AAA.;1', 'udf_path': '/aaa'}))
+            iso2.add_directory(**({'iso_path': '/AAB', 'rr_name': 'aab', 'joliet_path': '/aab'}
+                                  if kind == 'iso' else {'iso_path': '/AAB', 'udf_path': '/aab'}))
+            for _ in iso2.list_children(iso_path='/'):
+                pass
+            iso2.get_record(iso_path='/F3.;1')
 
         def opener(j, iso2=iso2, which=which, n=[0]):
             n[0] += 1
@@ -147,7 +159,7 @@ def build_worlds():
                 iso2.get_file_from_iso_fp(outfp, udf_path='/f%d' % j, blocksize=bs)
             else:
                 iso2.get_file_from_iso_fp(outfp, iso_path='/F%d.;1' % j, blocksize=bs)
-        worlds.append(World('reopened-' + kind, iso2, backing, starts, list(range(len(CONTENT))),
+        worlds.append(World('reopened-' + kind + ('+edited' if modified else ''), iso2, backing, starts, list(range(len(CONTENT))),
                             opener, getter, base, total))
     # unwritten images: every added file has its own file object; streams over ONE file share it
     for j in (3, 6):
@@ -204,8 +216,10 @@ def gen_script(rng, world, maxops):
             ops.append(('close', i))
         elif r < 0.95:
             ops.append(('env_get', rng.choice(world.files), rng.choice(BLOCKS)))
-        else:
+        elif r < 0.98 or not world.kind.startswith('reopened'):
             ops.append(('env_list',))
+        else:
+            ops.append(('env_add',))
     return ops
 
 
@@ -302,6 +316,13 @@ def run_script(world, ops):
             elif kind == 'env_list':
                 for _ in world.iso.list_children(iso_path='/'):
                     pass
+                obs.append((['EnvSetPos %s' % z(world.backing.tell() - world.base)], 'XU'))
+            elif kind == 'env_add':
+                # an edit of the opened image: later queries recompute extents of the original files
+                world.nadd = getattr(world, 'nadd', 0) + 1
+                if world.nadd <= 40:
+                    world.iso.add_fp(io.BytesIO(b'n' * 3000), 3000, iso_path='/AA%d.;1' % world.nadd,
+                                     **({'rr_name': 'aa%d' % world.nadd} if world.iso.has_rock_ridge() else {}))
                 obs.append((['EnvSetPos %s' % z(world.backing.tell() - world.base)], 'XU'))
         except Exception as e:  # an exception no stream call should raise
             fail = {'op_index': idx, 'op': op, 'expected': 'a value or PyCdlibInvalidInput',
@@ -401,7 +422,7 @@ def run(ctx):
             if nfail <= 25:   # shrink only the first few; the signature is what matters
                 small = shrink(w, ops)
                 _, f2 = run_script(w, small)
-                sig = 'stream:' + w.kind.split('-')[0] + ':' + '-'.join(o[0] for o in small)
+                sig = 'stream:' + w.kind.split('-')[0].split('+')[0] + ':' + '-'.join(o[0] for o in small)
                 ctx.violation(sig, 'C16: %s; minimal script on %s image: %s -> expected %s, observed %s'
                               % ((f2 or fail)['why'], w.kind, small, (f2 or fail)['expected'], (f2 or fail)['observed']),
                               {'world': w.kind, 'script': small, 'original_script': ops, 'failure': f2 or fail,
